@@ -381,7 +381,7 @@ func TestC18(t *testing.T) {
 
 		// hostile structured protobuf messages
 		timed("hostile_messages", func() {
-			parallel(c.N(6000, 2000000), func(i int, cnt counts) { hostileMessage(c, i, cnt) }, c)
+			parallel(c.N(6000, 1000000), func(i int, cnt counts) { hostileMessage(c, i, cnt) }, c)
 		})
 
 		// tamper
@@ -390,7 +390,7 @@ func TestC18(t *testing.T) {
 		})
 
 		// totality (seeded driver of the native fuzz bodies)
-		timed("totality", func() { totality(c, guarded, c.N(200000, 20000000)) })
+		timed("totality", func() { totality(c, guarded, c.N(200000, 8000000)) })
 
 		c.Count("zstd_huge_declared_inputs_diverted", int(divertedTotal.Load()))
 		c.Extra("phase_seconds", phases)
@@ -831,7 +831,7 @@ func specAloneFailsThroughLibrary(r resource.Resource) (fails bool) {
 func yamlCauseSig(def string, err error, differs string, r resource.Resource) string {
 	firstLineStarts := func(ss []string, prefix string) bool {
 		for _, e := range ss {
-			if strings.Contains(e, "\n") && strings.HasPrefix(strings.TrimLeft(e, "\r\n"), prefix) {
+			if strings.ContainsAny(e, "\r\n\u0085\u2028\u2029") && strings.HasPrefix(strings.TrimLeft(e, "\r\n\u0085\u2028\u2029"), prefix) {
 				return true
 			}
 		}
